@@ -540,10 +540,39 @@ func c03IntLattice(c *Ctx, idx int) {
 	c.Nontrivial(text)
 }
 
+// slice-lattice: every start/stop/step combination over the 64-bit limits, on
+// single-byte strings, multi-byte strings and arrays of several lengths, as
+// literal subject, as current node and after a pipe.
+var c03SliceSubj = []string{"''", "'a'", "'abc'", "'abcdefghij'", "'aé𝌆b'", "'日本語日本語'", "'\ufffdx\ufffd'", "`[]`", "`[1]`", "`[1,2,3]`", "`[0,1,2,3,4,5,6,7,8,9]`", "`[[1,2],[3,4],[5,6]]`"}
+var c03SliceBounds = []string{"", "0", "1", "2", "-1", "-2", "9", "9223372036854775807", "9223372036854775806", "-9223372036854775808", "-9223372036854775807", "4611686018427387904", "-4611686018427387904"}
+var c03SliceSteps = []string{"", "1", "-1", "2", "-2", "3", "9223372036854775807", "9223372036854775806", "-9223372036854775808", "-9223372036854775807", "4611686018427387904"}
+
+func c03SliceLatticeN(c *Ctx) int {
+	return len(c03SliceSubj) * len(c03SliceBounds) * len(c03SliceBounds) * len(c03SliceSteps)
+}
+
+func c03SliceLattice(c *Ctx, idx int) {
+	s := c03SliceSubj[idx%len(c03SliceSubj)]
+	idx /= len(c03SliceSubj)
+	a := c03SliceBounds[idx%len(c03SliceBounds)]
+	idx /= len(c03SliceBounds)
+	b := c03SliceBounds[idx%len(c03SliceBounds)]
+	idx /= len(c03SliceBounds)
+	st := c03SliceSteps[idx]
+	sl := "[" + a + ":" + b + ":" + st + "]"
+	if st == "" && idx%2 == 0 {
+		sl = "[" + a + ":" + b + "]"
+	}
+	for _, text := range []string{s + sl, s + " | @" + sl, s + " | " + sl, "[" + s + "][0]" + sl, s + sl + sl} {
+		c.CheckNoPanic(text, nil, map[string]string{"family": "slice-lattice"})
+	}
+	c.Nontrivial(s, sl)
+}
+
 func init() {
 	Register(&Property{
 		ID:            "C03",
-		Rule:          "expression bytes (all prefixes/suffixes of every corpus expression - exhaustive; random bytes; random token sequences over a hostile vocabulary incl. invalid UTF-8; token mutants; 1 MiB flat inputs; 20 recursive constructs nested to depth 10..1e5 (3e5 thorough) and the 4e6 witnesses) and data (every Go numeric kind incl. NaN/Inf, odd json.Number texts, decimal specials, typed nils, foreign values, invalid UTF-8) placed in every argument position of every builtin and operator; each driven through Search, Compile and Expression.Search with every returned error formatted; a monitor reports recovered panics, the driver attributes child deaths through the crash-surviving intent slot; non-trivial = every distinct input (all are meaningful for a crash property)",
+		Rule:          "expression bytes (all prefixes/suffixes of every corpus expression - exhaustive; random bytes; random token sequences over a hostile vocabulary incl. invalid UTF-8; token mutants; 1 MiB flat inputs; 20 recursive constructs nested to depth 10..1e5 (3e5 thorough) and the 4e6 witnesses) and data (every Go numeric kind incl. NaN/Inf, odd json.Number texts, decimal specials, typed nils, foreign values, invalid UTF-8) placed in every argument position of every builtin and operator; an exhaustive slice lattice (start/stop/step over {absent, small, +-2^62, 2^63-1, 2^63-2, -2^63, -2^63+1} on single-byte strings, multi-byte strings and arrays, as literal subject / current node / after a pipe / twice in a row); each driven through Search, Compile and Expression.Search with every returned error formatted; a monitor reports recovered panics, the driver attributes child deaths through the crash-surviving intent slot; non-trivial = every distinct input (all are meaningful for a crash property)",
 		MinNontrivial: 1000,
 		Streams: []Stream{
 			{Name: "truncations", N: c03TruncN, Run: c03Trunc, Exhaustive: true},
@@ -553,6 +582,7 @@ func init() {
 			{Name: "hostile", N: c03HostileN, Run: c03Hostile},
 			{Name: "hostile-random", N: func(c *Ctx) int { return tierN(c, 40000, 800000) }, Run: c03HostileRandom},
 			{Name: "int-lattice", N: func(c *Ctx) int { return 8 * 19 * 19 * 6 }, Run: c03IntLattice, Exhaustive: true},
+			{Name: "slice-lattice", N: c03SliceLatticeN, Run: c03SliceLattice, Exhaustive: true},
 			{Name: "long", N: func(c *Ctx) int { return 12 }, Run: c03Long, Exhaustive: true},
 			{Name: "nesting", N: c03NestN, Run: c03Nest, Exhaustive: true},
 			{Name: "pad-huge", N: func(c *Ctx) int { return len(c03PadHuge) }, Run: c03Pad, Exhaustive: true},
